@@ -1067,7 +1067,15 @@ pub fn at_end(sim: &mut Sim) {
                     sim.client.server_reqs.len(),
                     tokio::sim::pending().len()
                 ),
-                facts: json!({"unanswered": unanswered.iter().map(|u| u.split('#').next().unwrap_or("").to_string()).collect::<Vec<_>>()}),
+                // tower-lsp queues at most 100 requests: if the editor sends more than that while a
+                // handler is waiting for the editor's answer, the server stops reading its input and
+                // the answer behind them is never seen
+                facts: json!({
+                    "unanswered": unanswered.iter().map(|u| u.split('#').next().unwrap_or("").to_string()).collect::<Vec<_>>(),
+                    "stdin_unread_bytes": sim.stdin_unread(),
+                    "longest_burst": sim.max_burst_len,
+                    "queue_overflow": sim.stdin_unread() > 0 && sim.max_burst_len >= 100,
+                }),
             });
             return;
         }
